@@ -155,7 +155,11 @@ def graph_cases(draw, tier):
     order = draw(st.permutations(names))
     return {"n_in": n_in, "n_out": n_out, "spiders": spiders, "edges": edges,
             "order": list(order), "bad": draw(st.sampled_from(
-                [None, None, None, "missing", "shared"]))}
+                [None, None, None, "missing", "shared"])),
+            # where the boundary vertices sit in the picture (qubit
+            # coordinate) need not follow the declared order of the boundary
+            "qubit_in": draw(st.permutations(list(range(n_in)))),
+            "qubit_out": draw(st.permutations(list(range(n_out))))}
 
 
 def build_graph(case):
@@ -176,12 +180,15 @@ def build_graph(case):
     graph.inputs = [ids["i%d" % i] for i in range(case["n_in"])]
     graph.outputs = [ids["o%d" % o] for o in range(case["n_out"])]
     # pyzx's tensorfy orders vertices by row: inputs, spiders, outputs
+    q_in = case.get("qubit_in") or list(range(case["n_in"]))
+    q_out = case.get("qubit_out") or list(range(case["n_out"]))
     for i in range(case["n_in"]):
-        graph.set_position(ids["i%d" % i], i, 0)
+        graph.set_position(ids["i%d" % i], q_in[i], 0)
     for k in range(len(case["spiders"])):
         graph.set_position(ids["s%d" % k], k, k + 1)
     for o in range(case["n_out"]):
-        graph.set_position(ids["o%d" % o], o, len(case["spiders"]) + 1)
+        graph.set_position(ids["o%d" % o], q_out[o],
+                           len(case["spiders"]) + 1)
     return graph, ids
 
 
